@@ -7,7 +7,7 @@ non-nullable column has no bitmap to live in and silently becomes a default valu
 Does not decide: agreement of static plan types with run-time arrays (needs running the plan)."""
 import re
 
-from tmpl import site, suffix, flows_from, origin_locals
+from tmpl import site, suffix, flows_from, origin_locals, local_defs
 
 INSERT = 'executor::insert::InsertExecutor::<S>::execute'
 
@@ -160,6 +160,95 @@ def run(ctx):
                [site(g, c.bb) for g, c in rs] or [fam[0].loc],
                what='a cast to DECIMAL(p, s) keeps the scale of its source: `insert into t values (1.234)` into a DECIMAL(15,2) column stores '
                     'and returns 1.234')
+
+    R8 = 'C16-R8'
+    ctx.rule(R8, 'a value is cast to, checked against and stored in the column it was written FOR: the source position that feeds the cast of '
+                 'a table column is found by looking that column\'s id up in the statement\'s column list (Iterator::position over column_ids '
+                 'with a predicate on ColumnCatalog::id) - never by the column\'s own position in the table')
+    n_ci = 0
+    for g in prog.group(INSERT):
+        for bb, st in g.aggregates('types::ColumnIndex'):
+            n_ci += 1
+            ctx.functions_analysed.add(g.name)
+            leaves = set()
+
+            def walk(l, depth=10, seen=None):
+                seen = seen if seen is not None else set()
+                if l in seen or depth < 0:
+                    return
+                seen.add(l)
+                ds = local_defs(g, l)
+                if not ds:
+                    leaves.add(('input', g.var_name(l) or f'_{l}'))
+                for _, kind, payload in ds:
+                    if kind == 'assign':
+                        pls = __pl(payload)
+                        if not pls:
+                            leaves.add(('constant', str(payload.get('rv'))))
+                        for pl in pls:
+                            walk(pl['l'], depth - 1, seen)
+                    else:
+                        leaves.add(('call', payload.get('fn') or '?', payload.get('res') or ''))
+            for op in st['rv']['ops']:
+                if op['k'] == 'const':
+                    leaves.add(('constant', 'literal'))
+                else:
+                    walk(op['pl']['l'])
+            by_lookup = bool(leaves) and all(x[0] == 'call' and x[1].endswith('Iterator::position') for x in leaves)
+            # the predicate of the look-up compares with the id of the column
+            pred_ok = any((c.fn or '').endswith('ColumnCatalog::id') for h in prog.group(INSERT) for c in h.calls
+                          if h.name.startswith(g.name + '::{closure'))
+            ctx.ob(R8, 'InsertExecutor·source-position-by-column-id', by_lookup and pred_ok,
+                   f'{g.name} block {bb}: the ColumnIndex fed into the cast comes from {sorted(set(x[1].rsplit("::", 1)[-1] if x[0] == "call" else x[0] + ":" + x[1] for x in leaves))}; '
+                   f'look-up predicate reads ColumnCatalog::id: {pred_ok}', [site(g, bb)],
+                   what='InsertExecutor pairs a source column with a table column by position instead of by the id in the column list: '
+                        '`insert into t(c, a, b) values ..` casts, checks and stores each value under the wrong column')
+    ctx.floor(R8, n_ci, 1, 'ColumnIndex nodes built by InsertExecutor')
+
+    R9 = 'C16-R9'
+    ctx.rule(R9, 'every target column takes exactly one value: bind_insert compares the width of the source query (Binder::schema(..).len()) '
+                 'with the length of the target column list and leaves with an error before it builds the Insert node; bind_table_columns '
+                 'refuses a column that is named twice. Otherwise surplus values are dropped silently, missing ones crash the executor, and '
+                 'of two values for one column one is stored')
+    BI = 'binder::insert::<impl binder::Binder>::bind_insert'
+    bi = prog.body(BI)
+    if ctx.anchor(R9, BI, bi is not None):
+        ctx.functions_analysed.add(bi.name)
+        ins = [bb for bb, _ in bi.aggregates('planner::Expr', 'Insert')]
+        errs = bi.error_exit_blocks()
+        guards = []
+        for bb, st in bi.stmts():
+            rv = st.get('rv', {}) if st['s'] == 'assign' else {}
+            if rv.get('rv') == 'binop' and rv['op'] in ('Ne', 'Eq') and rv.get('ty') == 'usize':
+                src = set()
+                for pl in __pl(rv):
+                    src |= origin_locals(bi, pl['l'], depth=8)
+                lens = {c.bb for c in bi.calls if c.dest['l'] in src and re.search(r'::len$', c.fn or '')}
+                from_schema = any(c.dest['l'] in src and (c.fn or '').endswith('Binder::schema') for c in bi.calls)
+                if len(lens) >= 2 and from_schema:
+                    guards.append(bb)
+        ok = bool(ins) and bool(guards) and all(bi.dominated_by_any(set(guards), i) for i in ins) and \
+            any(bi.reachable_from([g_], avoid=set(ins)) & errs for g_ in guards)
+        if ctx.anchor(R9, 'bind_insert builds Expr::Insert', bool(ins)):
+            ctx.ob(R9, 'bind_insert·source-width-equals-target-columns', ok,
+                   f'comparisons of the source width with the target list at {guards}; Insert built at {ins}', [site(bi, x) for x in (guards or ins)],
+                   what='INSERT does not compare the number of values with the number of target columns: `insert into t values (1,2,3,4)` into a '
+                        'three-column table stores (1,2,3), `insert into t(a,b) values (1)` dies in the executor (index out of bounds)')
+    BTC = 'binder::table::<impl binder::Binder>::bind_table_columns'
+    bt = prog.body(BTC)
+    if ctx.anchor(R9, BTC, bt is not None):
+        ctx.functions_analysed.add(bt.name)
+        push = [c for c in bt.calls if re.search(r'Vec::<.*>::push$', c.name or '') and 'u32' in ' '.join(c.t.get('gargs', []))]
+        has = [c for c in bt.calls if re.search(r'::contains$', c.fn or '')]
+        errs = bt.error_exit_blocks()
+        ok = bool(push) and bool(has) and all(bt.dominated_by_any({h.bb for h in has}, p_.bb) for p_ in push) and \
+            any(bt.reachable_from([h.bb], avoid={p_.bb for p_ in push}) & errs for h in has)
+        if ctx.anchor(R9, 'bind_table_columns collects the column ids', bool(push)):
+            ctx.ob(R9, 'bind_table_columns·no-column-twice', ok,
+                   f'ids pushed at {[p_.bb for p_ in push]}; membership test with an error exit before the push at {[h.bb for h in has]}',
+                   [site(bt, p_.bb) for p_ in push],
+                   what='a column may be named twice in the column list of INSERT / COPY: `insert into t(a, a, b) values (7,8,9)` stores a=7, '
+                        'b=9 and silently drops the 8')
 
     R3 = 'C16-R3'
     ctx.rule(R3, 'RowsetBuilder::new chooses the (nullable / non-nullable) block format from ColumnCatalog::is_nullable')
